@@ -73,6 +73,10 @@ CANDS = ["Alice", "Bob", "Carol", "17", "x"]
 def gen_merge(rng):
     nid = rng.choice([1, 1, 2, 2, 3, 4])
     ids = rng.sample(IDS, nid)
+    if rng.chance(0.12):
+        # identifiers that print alike but are different objects: the str "7" and the int 7 (written "#int:7")
+        k = rng.choice(["7", "12", "0"])
+        ids = ([k, "#int:" + k] + ids)[: max(2, nid)]
     n = rng.randint(1, 12)
     ncon = rng.randint(1, 4)
     contests = rng.sample(CONTESTS, ncon)
@@ -180,7 +184,7 @@ def gen_raire(rng, file_p=0.35):
         rows.insert(rng.randint(1, len(rows)), rng.choice([[], ["339"], [""]]))
     if rng.chance(file_p):
         return {"op": "raire_file", "rows": rows}
-    return {"op": "raire", "rows": rows, "phantom": rng.chance(0.3), "int_cands": rng.chance(0.25)}
+    return {"op": "raire", "rows": rows, "phantom": rng.chance(0.3), "int_cands": rng.chance(0.25), "warm": rng.chance(0.3)}
 
 
 def gen_options(rng):
@@ -251,7 +255,7 @@ def _tp_back(tp):
 
 
 def canon_cvr(c):
-    return {"id": INT1 if (type(c.id) is int and c.id == 1) else c.id,
+    return {"id": _id_back(c.id),
             "votes": [[k, [[x, _val(v)] for x, v in d.items()]] for k, d in c.votes.items()],
             "phantom": _flag(c.phantom), "pool": _flag(c.pool), "tally_pool": _tp_back(c.tally_pool)}
 
@@ -259,11 +263,21 @@ def canon_cvr(c):
 INT1 = "#int:1"       # the case's (and the model's) name for the INTEGER identifier 1, the default `id` of CVR.from_vote
 
 
+def _id_obj(i):
+    """identifiers written "#int:7" in a case are handed to the code as the Python int 7 (an id column read by
+    pandas / json): a DIFFERENT identifier from the string "7", which prints alike"""
+    return int(i[5:]) if isinstance(i, str) and i.startswith("#int:") else i
+
+
+def _id_back(i):
+    return f"#int:{i}" if isinstance(i, int) and not isinstance(i, bool) else i
+
+
 def build_cvr(rec):
     from shangrla.core.Audit import CVR
     votes = {k: dict((x, v) for x, v in d) for k, d in rec["votes"]}
     via = rec.get("via", "ctor")
-    rec = dict(rec, tally_pool=_tp_obj(rec["tally_pool"]), id=(1 if rec["id"] == INT1 else rec["id"]))
+    rec = dict(rec, tally_pool=_tp_obj(rec["tally_pool"]), id=_id_obj(rec["id"]))
     if via in ("vote", "vote_min") and len(votes) == 1 and not rec["pool"] and rec["tally_pool"] is None:
         (cid, d), = votes.items()
         if via == "vote_min":
@@ -313,6 +327,18 @@ def impl(case):
         if case.get("int_cands"):
             rows = [r[:2] + [int(x) if _is_canon_int(x) else x for x in r[2:]] if i > 0 else r
                     for i, r in enumerate(rows)]
+        if case.get("warm"):
+            # an earlier, independent read whose records were then amended in place (CVR.update_votes): what a later
+            # read returns is a function of ITS rows
+            try:
+                w_rows = [list(r) for r in rows]
+                prev, _n = CVR.from_raire(w_rows, phantom=case["phantom"])
+                for c in prev[:3]:
+                    for cid in list(c.votes)[:1]:
+                        c.update_votes({cid: {"zz-late": 1, **{k: v + 1 for k, v in c.votes[cid].items()
+                                                                if isinstance(v, int)}}})
+            except Exception:  # noqa
+                pass
         if case.get("call") == "defaults" and case["phantom"] is False:
             out, n = CVR.from_raire(rows)                       # phantom=False is the default
         elif case.get("call") == "defaults":
